@@ -486,6 +486,10 @@ fn like_tokens(p: &str) -> Option<Vec<LTok>> {
                         i += 1;
                         break;
                     }
+                    if cs[i] == '[' {
+                        // an unescaped `[` inside a list: not specified
+                        return None;
+                    }
                     if cs[i] == '\\' {
                         if i + 1 >= cs.len() {
                             return None;
@@ -1064,7 +1068,9 @@ fn gen_case(rng: &mut Rng, out: &mut Vec<String>) {
     }
     out.push("validate".to_string());
     out.push("eval".to_string());
-    out.push("evalevent".to_string());
+    if rng.chance(1, 3) {
+        out.push("evalevent".to_string());
+    }
 }
 
 fn hexs(x: &str) -> String {
@@ -1074,12 +1080,17 @@ fn hexs(x: &str) -> String {
 /// Deterministic small-scope enumeration: every case is one short clause + `validate` + `eval`.
 fn sweep_cases() -> Vec<Vec<String>> {
     let mut cases: Vec<Vec<String>> = Vec::new();
+    let mut k = 0usize;
     let mut clause = |elems: &[String]| {
         let mut c = vec!["reset".to_string()];
         c.extend(elems.iter().map(|e| format!("elem {}", e)));
         c.push("validate".to_string());
         c.push("eval".to_string());
-        c.push("evalevent".to_string());
+        // `event_filter::evaluate` walks the whole address space for events: every 4th clause
+        k += 1;
+        if k % 4 == 0 {
+            c.push("evalevent".to_string());
+        }
         cases.push(c);
     };
     // representative literals of every value class (and of every conversion outcome)
@@ -1239,10 +1250,7 @@ fn sweep_cases() -> Vec<Vec<String>> {
         clause(&[format!("cast {} n", v)]);
     }
     // (i) LIKE: one pattern per feature of the translation and of the regex syntax
-    let subjects = [
-        "", "a", "b", "ab", "abc", "a.c", "a\\b", "\\", "%", "_", "]", "[a]", "a-c", "^", "ac", "a\nb", "aab", "$", "?", "+", "(", ")", ".",
-        "*", "-", "[", "c", "a?b", "a+b", "a(b", "a)b", "a$b", "a.b", "a*b", "a^b", "a-b", "a[b", "a]b", "a%b", "a_b", "acb",
-    ];
+    let subjects = ["", "a", "ab", "abc", "a.c", "a\\b", "\\", "%", "]", "a-c", "^", "a\nb", "a?b", "a]b", "a%b", "acb"];
     for p in [
         "", "a", "abc", "%", "a%", "%a", "%a%", "a%c", "_", "__", "a_", "_a", "a_c", "%_", "_%", "a__", "%__", "a%_",
         "[a]", "[ab]", "[a-c]", "[^a]", "[^a-c]", "[]]", "[^]]", "[a-]", "[-a]", "[c-a]", "[a", "[", "[]", "[^]", "[^",
@@ -1276,6 +1284,185 @@ fn sweep_cases() -> Vec<Vec<String>> {
     cases
 }
 
+/// One token of the LIKE pattern grammar: its text and strings it is meant to match (probes only —
+/// the reference matcher decides what is expected).
+#[derive(Clone)]
+struct LTk {
+    text: String,
+    samples: Vec<String>,
+}
+
+fn ltk(text: &str, samples: &[&str]) -> LTk {
+    LTk {
+        text: text.to_string(),
+        samples: samples.iter().map(|s| s.to_string()).collect(),
+    }
+}
+
+/// Patterns from a grammar, exhaustively up to a small size: simple tokens (literals, wildcards,
+/// every escaped special incl. `\\`, regex metas, stray brackets), lists (members: literals, ranges,
+/// escaped `\\ \] \[ \^ \-`, unescaped `^ - . % _`; 1–3 members, each member at first / middle / last
+/// position, negated or not), lists in every context (alone, before / after / between wildcards and
+/// literals, after an escaped backslash), pairs and triples of simple tokens, list pairs.
+fn like_grammar_cases(thorough: bool) -> Vec<Vec<String>> {
+    let simple: Vec<LTk> = vec![
+        ltk("a", &["a"]),
+        ltk("b", &["b"]),
+        ltk("%", &["", "ab"]),
+        ltk("_", &["a"]),
+        ltk("\\\\", &["\\"]),
+        ltk("\\%", &["%"]),
+        ltk("\\_", &["_"]),
+        ltk("\\[", &["["]),
+        ltk("\\]", &["]"]),
+        ltk("\\^", &["^"]),
+        ltk("\\-", &["-"]),
+        ltk("\\a", &["a"]),
+        ltk(".", &["."]),
+        ltk("^", &["^"]),
+        ltk("-", &["-"]),
+        ltk("]", &["]"]),
+    ];
+    let members: Vec<(&str, char)> = vec![
+        ("a", 'a'),
+        ("b", 'b'),
+        ("a-b", 'b'),
+        ("\\\\", '\\'),
+        ("\\]", ']'),
+        ("\\[", '['),
+        ("\\^", '^'),
+        ("\\-", '-'),
+        ("^", '^'),
+        ("-", '-'),
+        (".", '.'),
+        ("%", '%'),
+        ("_", '_'),
+        ("\\%", '%'),
+        ("\\_", '_'),
+        ("\\.", '.'),
+        ("\\a", 'a'),
+    ];
+    let m3: Vec<usize> = if thorough { vec![0, 2, 3, 4, 5, 8, 9, 11, 15] } else { vec![0, 3, 4, 9] };
+    let mut bodies: Vec<Vec<usize>> = Vec::new();
+    for i in 0..members.len() {
+        bodies.push(vec![i]);
+    }
+    for i in 0..members.len() {
+        for j in 0..members.len() {
+            bodies.push(vec![i, j]);
+        }
+    }
+    for &i in &m3 {
+        for &j in &m3 {
+            for &k in &m3 {
+                bodies.push(vec![i, j, k]);
+            }
+        }
+    }
+    let mut lists: Vec<(LTk, usize)> = Vec::new(); // (token, number of members)
+    for b in &bodies {
+        // `--` inside a list is the regex crate's set difference: outside the modelled subset
+        if b.windows(2).any(|w| members[w[0]].0 == "-" && members[w[1]].0 == "-") {
+            continue;
+        }
+        for neg in [false, true] {
+            let mut text = String::from("[");
+            if neg {
+                text.push('^');
+            }
+            for &i in b {
+                text.push_str(members[i].0);
+            }
+            text.push(']');
+            let inside: Vec<char> = b.iter().map(|&i| members[i].1).collect();
+            let sample: String = if neg {
+                ['c', 'a', 'b', '\\', ']', '%'].iter().find(|c| !inside.contains(c)).unwrap_or(&'c').to_string()
+            } else {
+                inside[0].to_string()
+            };
+            lists.push((
+                LTk {
+                    text,
+                    samples: vec![sample],
+                },
+                b.len(),
+            ));
+        }
+    }
+    let mut patterns: Vec<Vec<LTk>> = Vec::new();
+    let pct = simple[2].clone();
+    let und = simple[3].clone();
+    let la = simple[0].clone();
+    let bsl = simple[4].clone();
+    for (l, n) in &lists {
+        patterns.push(vec![l.clone()]);
+        patterns.push(vec![l.clone(), pct.clone()]);
+        if *n <= 2 || thorough {
+            patterns.push(vec![pct.clone(), l.clone()]);
+        }
+        if *n == 1 || thorough {
+            patterns.push(vec![la.clone(), l.clone(), und.clone()]);
+            patterns.push(vec![l.clone(), und.clone()]);
+            patterns.push(vec![l.clone(), la.clone()]);
+            patterns.push(vec![und.clone(), l.clone()]);
+            patterns.push(vec![bsl.clone(), l.clone()]);
+            patterns.push(vec![pct.clone(), l.clone(), pct.clone()]);
+            patterns.push(vec![l.clone(), simple[13].clone()]);
+        }
+    }
+    for a in &simple {
+        patterns.push(vec![a.clone()]);
+        for b in &simple {
+            patterns.push(vec![a.clone(), b.clone()]);
+        }
+    }
+    let s8: Vec<usize> = if thorough { (0..simple.len()).collect() } else { vec![0, 2, 3, 4, 7, 8] };
+    for &i in &s8 {
+        for &j in &s8 {
+            for &k in &s8 {
+                patterns.push(vec![simple[i].clone(), simple[j].clone(), simple[k].clone()]);
+            }
+        }
+    }
+    // nested-looking brackets and list pairs
+    // (a non-negated list that starts with a literal `^` reads as a negation; as the first of two lists
+    // it makes the second one a nested negated class, which is outside the modelled subset)
+    let few: Vec<&(LTk, usize)> = lists
+        .iter()
+        .filter(|(l, n)| *n == 1 && l.text != "[^]")
+        .filter(|(l, _)| thorough || ["[a]", "[^a]", "[\\\\]", "[^\\\\]", "[\\]]", "[\\[]", "[-]", "[%]"].contains(&l.text.as_str()))
+        .collect();
+    for (a, _) in few.iter() {
+        for (b, _) in few.iter() {
+            patterns.push(vec![a.clone(), b.clone()]);
+        }
+    }
+    for p in ["[[a]]", "[[a]", "[a[b]]", "[a][", "[]a]", "[^]a]", "[a]]", "[[]", "[\\[a]]", "[a\\]", "[a\\\\\\]", "[a\\\\\\]]%", "[\\\\[a]]", "[\\\\[a]]%"] {
+        patterns.push(vec![ltk(p, &["a"])]);
+    }
+    let mut cases = Vec::new();
+    for p in patterns {
+        let text: String = p.iter().map(|t| t.text.as_str()).collect();
+        let s1: String = p.iter().map(|t| t.samples[0].as_str()).collect();
+        let s2: String = p.iter().map(|t| t.samples[t.samples.len() - 1].as_str()).collect();
+        let mut subjects = vec![s1.clone(), s2, format!("{}b", s1)];
+        if thorough {
+            let mut cut = s1.clone();
+            cut.pop();
+            subjects.push(cut);
+        }
+        subjects.dedup();
+        let mut c = vec!["reset".to_string(), format!("likere {}", show_str(&text))];
+        for sub in subjects {
+            c.push("reset".to_string());
+            c.push(format!("elem like {} {}", hexs(&sub), hexs(&text)));
+            c.push("eval".to_string());
+        }
+        cases.push(c);
+    }
+    cases
+}
+
 impl Prop for C39 {
     fn id(&self) -> &'static str {
         "C39"
@@ -1284,7 +1471,8 @@ impl Prop for C39 {
     fn gen(&self, rng: &mut Rng, n: usize, _tier: Tier, out: &mut Vec<String>) {
         // 1. systematic single-step sweep (operand counts, truth tables, comparison class pairs,
         //    operand kinds, Between/InList outcomes, bitwise, Cast targets, LIKE syntax features)
-        let sweep = sweep_cases();
+        let mut sweep = sweep_cases();
+        sweep.extend(like_grammar_cases(_tier == Tier::Thorough));
         let m = sweep.len().min(n);
         for c in &sweep[..m] {
             out.extend(c.iter().cloned());
